@@ -221,6 +221,10 @@ fn dfs_shard(iface: &IfaceDesc, starts: &[(&'static str, &'static Node)], prefix
             let v = verdict(root, start, &s);
             judge_against_prefixes(&mut acc, &s, v, &stack, 1, start_name, iface.name);
             acc.strings += 1;
+            if acc.strings & 0xffff == 0 {
+                // refresh the hang watchdog: it budgets CPU time per published case
+                par::case_begin(&s, [max_len as u64, acc.strings, 0, 0]);
+            }
             stack.push(v);
         }
         par::case_end();
